@@ -237,7 +237,7 @@ def do_query(env, q):
     if k == "utilsFor":
         return sorted([w.name_id(n), env.cv(v)[0]] for n, v in c.getUtilitiesFor(w.specs[q[1]]))
     if k == "allUtils":
-        return [env.cv(v)[0] for v in c.getAllUtilitiesRegisteredFor(w.specs[q[1]])]
+        return [env.cv(v) for v in c.getAllUtilitiesRegisteredFor(w.specs[q[1]])]
     if k == "adapter":
         r = c.queryAdapter(w.objects[q[1]], w.specs[q[2]], w.name(q[3]), default)
         return None if r is default else r
